@@ -372,7 +372,7 @@ func runC19(r *Run) {
 		ops := r.Pick(6000, 12000)
 		keys := []int{4, 64, 2000}[(idx/2)%3]
 		// every other hybrid cache admits evicted entries to the secondary tier with probability 0.6
-		c19Prob.Store([]int32{100, 60}[(idx/len(kinds))%2])
+		c19Prob.Store([]int32{60, 100}[(idx/len(kinds))%2])
 		if strings.HasPrefix(kind, "hybrid") && c19Prob.Load() < 100 {
 			r.Count("hybrid_workloads_with_admission_probability_below_1", 1)
 		}
